@@ -4,7 +4,7 @@
    slot layout (owner), every way of combining child replies (asm) and every schedule sch of the transition system
    of Model/Cluster.v (connections reading, handlers sending children, nodes answering, writers writing). *)
 From Coq Require Import List NArith String.
-From Sam Require Import Gen.Tables Model.Bytes Model.Resp Model.Text Model.Dispatch Model.Cluster Model.RedisSem Proofs.ClusterProofs Proofs.DispatchProofs.
+From Sam Require Import Gen.Tables Model.Bytes Model.Resp Model.Text Model.Dispatch Model.Cluster Model.RedisSem Proofs.ClusterProofs Proofs.ClusterLive Proofs.DispatchProofs.
 Import ListNotations.
 Open Scope string_scope.
 Open Scope list_scope.
@@ -24,6 +24,13 @@ Theorem C03_quiescent : forall V sem owner asm nd0 progs c sch, (forall c', c' <
   out (conns V (run V sem owner asm (init V owner nd0 progs) sch) c) = snd (ss_run V sem asm (abs_db V owner nd0) (progs c)).
 Proof. exact single_connection_quiescent. Qed.
 Print Assumptions C03_quiescent.
+
+(* and that point can always be reached: after ANY schedule prefix there is a continuation after which the connection
+   holds exactly the single server's replies to its whole program *)
+Theorem C03_every_request_answered : forall V sem owner asm nd progs c sch0, (forall c', c' <> c -> progs c' = []) ->
+  exists sch, out (conns V (run V sem owner asm (init V owner nd progs) (sch0 ++ sch)) c) = snd (ss_run V sem asm (abs_db V owner nd) (progs c)).
+Proof. exact every_request_answered. Qed.
+Print Assumptions C03_every_request_answered.
 
 (* any number of connections: the order lin in which children were sent is a linearization - the single server
    executing lin gives exactly the recorded replies, lin contains each connection's children in program order, and
